@@ -1,5 +1,6 @@
 import BufModel.Lint
 import BufProofs.Lemmas.CaseLemmas
+import BufProofs.Lemmas.LintRpcKey
 /-
   Helper lemmas for the lint model (C05).
 -/
@@ -218,6 +219,7 @@ theorem globalRule_nil (o : Options) (w : Schema) (r : Rule) (h : globalClean o 
     first
       | exact groupRule_nil _ _ _ _ _ h
       | exact isEmpty_eq_nil _ h
+      | exact rpcUniqueCoded_nil o w (isEmpty_eq_nil _ h)
       | rfl
 
 /-- One rule: its Clean condition ⇒ no annotation. -/
@@ -333,7 +335,7 @@ theorem globalRule_files (o : Options) (w : Schema) (r : Rule) (a : Annotation) 
   cases r <;> simp only [globalRule] at h <;>
     first
       | exact groupRule_files _ _ _ _ _ a h
-      | exact rpcUnique_files o w a h
+      | exact rpcUnique_files o w a (rpcUniqueCoded_sub o w a h)
       | exact stableNoUnstable_files w a h
       | exact importCycle_files w a h
       | (simp at h)
